@@ -131,6 +131,18 @@ class Gen:
         if rng.random() < 0.7:
             mp = self.element((STY, 'master-page'), 3, {(STY, 'name'): 'Standard', (STY, 'page-layout-name'): 'pm1'})
             if mp is not None: doc.masterstyles.addElement(mp)
+        if rng.random() < 0.25:
+            # a list style used by the body and by a page header: both parts will carry it
+            from odf import text as T
+            doc.automaticstyles.addElement(T.ListStyle(name='L7'))
+            for where in ('body', 'master'):
+                l = T.List(stylename='L7'); li = T.ListItem(); li.addElement(T.P(text='both')); l.addElement(li)
+                if where == 'body':
+                    try: body_top.addElement(l)
+                    except Exception: pass
+                else:
+                    mp2 = style.MasterPage(name='WithList', pagelayoutname='pm1'); h = style.Header(); h.addElement(l); mp2.addElement(h)
+                    doc.masterstyles.addElement(mp2)
         # pictures and embedded sub-documents
         for i in range(rng.choice([0, 0, 1, 2])):
             data = bytes(rng.randrange(256) for _ in range(rng.randint(1, 40)))
